@@ -339,7 +339,10 @@ fn judge_sweep(c: &MCase8) -> Verdict {
 }
 
 fn judge_case(c: &MCase8) -> Verdict {
-    if c.sweep > 0 {
+    // sweep == u16::MAX marks the flood scenario (see strategy 3): the ordinary judge, without the count of
+    // unicode characters (a held repeating macro of unicode items runs ahead of their delivery)
+    let flood = c.sweep == u16::MAX;
+    if c.sweep > 0 && !flood {
         return judge_sweep(c);
     }
     let text = cfg_text(c);
@@ -580,7 +583,7 @@ fn judge_case(c: &MCase8) -> Verdict {
                 }
             }
         }
-        if !cuts_allowed && uni_per_round > 0 && partial_rounds == 0 {
+        if !flood && !cuts_allowed && uni_per_round > 0 && partial_rounds == 0 {
             v.classes.push("unicode-items-counted");
             if uni_seen != uni_per_round * complete_rounds {
                 return Verdict::failed("macro:unicode-item-count", format!("{}\n{complete_rounds} complete runs of {uni_per_round} unicode items each, but {uni_seen} characters were typed", describe(i, &proj)));
@@ -621,7 +624,7 @@ impl TypedProp for C08 {
     fn info(&self) -> PropInfo {
         PropInfo {
             level: "exploration",
-            rule: "configs: 1-6 macro keys, each with its own letters and modifier so that the OS output identifies the macro; bodies from the macro grammar (keys, delays, modifier-chorded keys, modifier groups, nested lists, unicode, mouse tap); variants macro / release-cancel / cancel-on-press / both / repeat / repeat-release-cancel. Histories: physically consistent presses and releases of the macro keys and two other keys with gaps {0..5,10,30}. Oracle: the harness expands each body itself; the OS transitions on the macro's keys must parse as complete runs of that list, or (cancel variants, > 4 concurrent macros) a prefix followed by the release of everything it holds; steps >= 1 ms apart and stated delays respected; nothing before the trigger; nothing down at the end; a plain or repeating macro without cancel variants in the config completes every activation; a repeating macro starts no round after its key's release was processed; no macro press after a release-cancel / cancel-on-press trigger was processed. Cancellation sweep (3 cases in 16): one macro of a cancel variant is activated alone and its trigger (release of its key / press of another key) arrives x ms later, x drawn from the whole run: the keys the macro presses must be exactly those the same activation without the trigger has pressed by the tick in which the cancel takes effect (a press cancels on arrival, a release when the layout handles it one tick later), and everything is released. Eviction burst (1 case in 16): 5-6 macros of any variant, each holding its modifier across a 20-60 ms delay, activated within a few milliseconds: nothing may stay down. Non-trivial: the body has a group or nested list, or a run was cut short, or >= 2 macros ran concurrently. Distinct: hash of the case.",
+            rule: "configs: 1-6 macro keys, each with its own letters and modifier so that the OS output identifies the macro; bodies from the macro grammar (keys, delays, modifier-chorded keys, modifier groups, nested lists, unicode, mouse tap); variants macro / release-cancel / cancel-on-press / both / repeat / repeat-release-cancel. Histories: physically consistent presses and releases of the macro keys and two other keys with gaps {0..5,10,30}. Oracle: the harness expands each body itself; the OS transitions on the macro's keys must parse as complete runs of that list, or (cancel variants, > 4 concurrent macros) a prefix followed by the release of everything it holds; steps >= 1 ms apart and stated delays respected; nothing before the trigger; nothing down at the end; a plain or repeating macro without cancel variants in the config completes every activation; a repeating macro starts no round after its key's release was processed; no macro press after a release-cancel / cancel-on-press trigger was processed. Cancellation sweep (3 cases in 16): one macro of a cancel variant is activated alone and its trigger (release of its key / press of another key) arrives x ms later, x drawn from the whole run: the keys the macro presses must be exactly those the same activation without the trigger has pressed by the tick in which the cancel takes effect (a press cancels on arrival, a release when the layout handles it one tick later), and everything is released. Eviction burst (1 case in 16): 5-6 macros of any variant, each holding its modifier across a 20-60 ms delay, activated within a few milliseconds: nothing may stay down. Flood (1 case in 16): a repeating macro of unicode items and one key held for 150-700 ms, then a plain macro, which must play completely (the unicode characters of the flood are not counted: such a macro runs ahead of their delivery). Non-trivial: the body has a group or nested list, or a run was cut short, or >= 2 macros ran concurrently. Distinct: hash of the case.",
             assumptions: vec![
                 "a cancel variant cancels every running macro (documented), so completeness is only demanded in configs without cancel variants".into(),
                 "re-activating a macro while a copy of it may still run is skipped (two interleaved copies on the same keys)".into(),
@@ -648,6 +651,7 @@ impl TypedProp for C08 {
         Gen::Strat(match idx % 16 {
             3 | 7 | 11 => 1,
             15 => 2,
+            14 => 3,
             _ => 0,
         })
     }
@@ -679,6 +683,19 @@ impl TypedProp for C08 {
                         hist.push(Ev::Gap(1));
                     }
                     MCase8 { macros, hist, sweep: 0 }
+                })
+                .boxed();
+        }
+        if key == 3 {
+            // flood: a repeating macro of unicode items and one key, held for 150-700 ms (up to a few hundred
+            // custom items in total), then a plain macro: it must still play completely, nothing stays down
+            return (prop::collection::vec(prop_oneof![3 => Just(MI::Unicode), 1 => (0usize..3).prop_map(MI::Key)], 2..7), prop::collection::vec(item_strategy(), 1..4), 150u32..700)
+                .prop_map(|(mut rep, plain, hold)| {
+                    rep.insert(0, MI::Key(0));
+                    rep.push(MI::Unicode);
+                    let macros = vec![MacroDef { variant: 4, body: rep }, MacroDef { variant: 0, body: plain }];
+                    let hist = vec![Ev::Press(code_of(SRC[0])), Ev::Gap(hold), Ev::Release(code_of(SRC[0])), Ev::Gap(400), Ev::Press(code_of(SRC[1])), Ev::Gap(5), Ev::Release(code_of(SRC[1]))];
+                    MCase8 { macros, hist, sweep: u16::MAX }
                 })
                 .boxed();
         }
